@@ -855,3 +855,113 @@ example : (⟨[⟨.negZero, .fin 1, [.fin (1/4), .fin (3/4)]⟩], .float64,
       .const .np (.fin (1/2)) (.fin 2), []⟩ : Discr).eqI
     ⟨[⟨.fin 0, .fin 1, [.fin (1/4), .fin (3/4)]⟩], .float64,
       .const .np (.fin (1/2)) (.fin 2), ["x"]⟩ = true := by decide +kernel
+
+/-! ## round 4: `astype` on arbitrarily nested product spaces -/
+
+/-- After `space.astype(dt)` returns — for a tensor space, a discretized space or a product
+space nested to any depth — EVERY leaf has dtype `dt` (`hasDtype` is `dtype ==
+getattr(space, 'dtype', object)`, which for a product space means: non-empty and all
+components, recursively, have that dtype). -/
+theorem C20.pspace_astype_dtype (T : DTables) (s r : Space) (dt : DType)
+    (h : s.astype T dt = some r) : r.hasDtype dt = true :=
+  Space.astype_hasDtype T s dt r h
+
+/-- `astype` is idempotent on ALL space classes incl. arbitrarily nested product spaces:
+casting to `dt` twice is the same as casting once (the second call takes the `self` fast
+path), including the raising cases (empty product space, non-castable component). -/
+theorem C20.pspace_astype_idem (T : DTables) (s : Space) (dt : DType) :
+    (s.astype T dt).bind (·.astype T dt) = s.astype T dt := by
+  cases h : s.astype T dt with
+  | none => rfl
+  | some r => simpa using Space.astype_of_hasDtype T r dt (Space.astype_hasDtype T s dt r h)
+
+/-- non-vacuity: a weighted product space nested two deep with mixed dtypes is cast -/
+example :
+    let T := OdlModel.Gen.DTypes.tables
+    let r2 : Space := .tensor ⟨[2], .float64, defaultW .np⟩
+    let r3f : Space := .tensor ⟨[3], .float32, defaultW .np⟩
+    (Space.prod [r2, .prod [r3f, r2] (defaultW .ps) .real] (.const .ps (.fin 2) (.fin 1)) .real).astype
+      T .float32 =
+      some (.prod [.tensor ⟨[2], .float32, defaultW .np⟩,
+        .prod [r3f, .tensor ⟨[2], .float32, defaultW .np⟩] (defaultW .ps) .real]
+        (.const .ps (.fin 2) (.fin 1)) .real) := by
+  simp [Space.astype, Space.astypeL, Space.dtypeIs, Space.dtypeAll, TSpace.astype, mkProdW,
+    Space.field, OdlModel.Gen.DTypes.tables, OdlModel.Gen.DTypes.available,
+    OdlModel.Gen.DTypes.isFloating, OdlModel.Gen.DTypes.isReal, defaultW]
+
+mutual
+/-- HISTORY INDEPENDENCE for `astype` on ALL space classes, by structural induction over the
+nesting: if two spaces (tensor, discretized, product spaces of any length nested to any depth,
+any weightings) compare equal, then `a.astype(dt)` and `b.astype(dt)` either both raise or
+return spaces that compare equal again (hence hash equally, `C20.space_hash_respects_eq`).
+`Space.astype` is the definition the driver executes for `derive op=astype` (streams
+`astype/ProductSpace/*` and `history/*`).  As there, `can_cast` is taken to hold for array
+weighted components. -/
+theorem C20.pspace_astype_respects_eq (T : DTables) : (a b : Space) → a.eqI b = true →
+    (dt : DType) →
+    (match a.astype T dt, b.astype T dt with
+     | some r, some r' => r.eqI r' = true
+     | none, none => True
+     | _, _ => False)
+  | .tensor a, .tensor b, h, dt => by
+      have := (C20.conversions_respect_eq T a b (by simpa [Space.eqI] using h) dt true (.int 0) 0 0).1
+      simp only [Space.astype]
+      cases ha : a.astype T dt true <;> cases hb : b.astype T dt true <;>
+        simp_all [Space.eqI]
+  | .discr a, .discr b, h, dt => by
+      have := C20.discr_astype_respects_eq T a b (by simpa [Space.eqI] using h) dt true
+      simp only [Space.astype]
+      cases ha : a.astype T dt true <;> cases hb : b.astype T dt true <;>
+        simp_all [Space.eqI]
+  | .prod l w f, .prod l' w' f', h, dt => by
+      have h0 := h
+      simp only [Space.eqI, Bool.and_eq_true, decide_eq_true_eq] at h
+      obtain ⟨⟨hl, hw⟩, he⟩ := h
+      have hd := Space.dtypeIs_of_eq l l' hl he dt
+      have ih := C20.pspace_astypeL_respects_eq T l l' hl he dt
+      simp only [Space.astype, ← hd]
+      by_cases h1 : Space.dtypeIs l dt = true
+      · simpa [h1] using h0
+      · simp only [h1, Bool.false_eq_true, if_false]
+        cases hr : Space.astypeL T l dt with
+        | none => cases hr' : Space.astypeL T l' dt <;> simp_all
+        | some r =>
+          cases hr' : Space.astypeL T l' dt with
+          | none => simp_all
+          | some r' =>
+            simp only [hr, hr'] at ih
+            obtain ⟨hlen, heq⟩ := ih
+            cases r <;> cases r' <;> simp at hlen <;>
+              by_cases h3 : T.isFloating dt = true <;>
+              simp_all [mkProdW, mkProd, Space.eqI, defaultW, Weighting.eqI, Weighting.baseEq,
+                Weighting.cls, Weighting.exponent, Fl.numEq]
+  | .tensor _, .discr _, h, _ | .tensor _, .prod .., h, _ | .discr _, .tensor _, h, _
+  | .discr _, .prod .., h, _ | .prod .., .tensor _, h, _ | .prod .., .discr _, h, _ => by
+      simp [Space.eqI] at h
+/-- list part of the induction: component-wise equal component tuples have component-wise
+equal casts, or the first failing component raises for both -/
+theorem C20.pspace_astypeL_respects_eq (T : DTables) : (l l' : List Space) →
+    l.length = l'.length → Space.eqL l l' = true → (dt : DType) →
+    (match Space.astypeL T l dt, Space.astypeL T l' dt with
+     | some r, some r' => r.length = r'.length ∧ Space.eqL r r' = true
+     | none, none => True
+     | _, _ => False)
+  | [], [], _, _, _ => by simp [Space.astypeL, Space.eqL]
+  | [], _ :: _, h, _, _ => by simp at h
+  | _ :: _, [], h, _, _ => by simp at h
+  | a :: l, b :: l', hl, he, dt => by
+      simp only [Space.eqL, Bool.and_eq_true] at he
+      have h1 := C20.pspace_astype_respects_eq T a b he.1 dt
+      have h2 := C20.pspace_astypeL_respects_eq T l l' (by simpa using hl) he.2 dt
+      simp only [Space.astypeL]
+      cases ha : Space.astype T a dt <;> cases hb : Space.astype T b dt <;>
+        cases hr : Space.astypeL T l dt <;> cases hr' : Space.astypeL T l' dt <;>
+        simp_all [Space.eqL]
+end
+
+/-- non-vacuity: two nested product spaces that are equal but differ in the recorded field and
+in the spelling of a weighting constant (`-0.0`-free here; fields are not compared) -/
+example : (Space.prod [.prod [.tensor ⟨[2], .float64, defaultW .np⟩] (defaultW .ps) .real]
+      (.const .ps (.fin 2) (.fin 1)) .real).eqI
+    (.prod [.prod [.tensor ⟨[2], .float64, defaultW .np⟩] (defaultW .ps) .complex]
+      (.const .ps (.fin 2) (.fin 1)) .complex) = true := by decide
